@@ -682,6 +682,8 @@ def forms_case(rng, quick):
         if rng.random() < 0.5:
             c['alphabet'] = {'order': rng.choice(['ACGT', 'ACGT', 'TGCA', 'CATG', 'GTAC']),
                              'form': rng.choice(['list', 'str', 'tuple'])}
+        if c.get('alphabet', {}).get('order', 'ACGT') != 'ACGT' and rng.random() < 0.5:
+            c['pre'] = [{'alphabet': None}]               # first the default alphabet, then this one
     else:
         if c['input'] == 'numpy':
             c['seq_dtype'] = rng.choice(['float32', 'float64', 'int8', 'int64', 'uint8', 'bool', 'float16', 'int32'])
